@@ -29,7 +29,7 @@ CLAIMS = {
  "C19": ("PARTIAL BY NATURE. Coq carries the name/reference/literal obligations of the emitted items (Emit.v: wf_output): five machine-checked refutations with witnesses (D7 WO field, D8 negative stride under an unsigned address type, D9 block ref duplicates, D12 duplicate discriminant, D16 negative discriminant on uint) and C19_wf_output_partial for definitions outside those classes; that rustc accepts the output is tied by the correspondence alone: batches of accepted cfg-free definitions over the documented language are cargo-checked as no_std-compatible modules, every diagnostic mapped to its definition; known classes must fail exactly as recorded, anything else is a violation; syn parse and accessor presence are checked too.",
          "rustc/cargo are the observers; Rust's type system is not modelled. " + TB, "5 C19"),
 
- "C04": ("C04_address_chain_exact / C04_address_exact (induction over any chain of nested block accessors: the emitted checked arithmetic, if it does not panic, equals sum(offset + index*stride) in the integers, negative values included), C04_index_guard(+chain), C04_ref_address, C04_read_all_visits, C04_read_all_reports_bus_address_refuted (genuine defect D2, known finding) with the _partial for base 0; tie = accepted random trees compiled with a recording mock: every valid index tuple and the first invalid index per level called in a debug build; bus address vs the Coq model on the real MIR and vs the property's formula from the abstract definition; read_all_registers on every block instance.",
+ "C04": ("C04_address_chain_exact / C04_address_exact (induction over any chain of nested block accessors: the emitted checked arithmetic, if it does not panic, equals sum(offset + index*stride) in the integers, negative values included), C04_index_guard(+chain), C04_ref_address, C04_read_all_visits, C04_read_all_reports_bus_address_nonroot/_root (reported address = bus address; D2 was repaired in /repo); tie = accepted random trees compiled with a recording mock: every valid index tuple and the first invalid index per level called in a debug build; bus address vs the Coq model on the real MIR and vs the property's formula from the abstract definition; read_all_registers on every block instance.",
          "Block refs are outside (D9: their output does not compile); index-as-IT wrap and IT overflow are C13's (D3/D3b). " + TB, "5 C04"),
 
  "C08": ("C08_accept_iff, C08_bytes, C08_no_bit_at_or_above_size, C08_out_of_range_bit_uses_C01_numbering (the rejection rule is stated with C01's setbit), C08_never_panics for EVERY size 1..128 by bit-level reasoning, plus device-level C08_new_constructor, C08_ref_override_own_constructor, C08_ref_without_override_uses_new over the transcribed reset_values_converted and the emitter's constructors; tie = per size x orders x forms x boundary values: real generator vs Coq model on the real MIR vs a transcription of the property text (L1 constructor literals) and compiled drivers' write(|_| ()) wire bytes (L2).",
